@@ -20,6 +20,7 @@
 //   enc_xz <check> <preset> <hex>                     -> one .xz Stream (lzma_easy_buffer_encode)
 #include "hproto.h"
 #include <lzma.h>
+#include "c03_alloc.h"   // requests >= 64 MiB (LZ dictionaries declared up to 4 GiB - 1) come from mmap(MAP_NORESERVE)
 
 static void put_bytes(const uint8_t *p, size_t n) { hp_put_hex(p, n); }
 
@@ -147,6 +148,8 @@ int main(void)
 			size_t outchunk = (size_t)hp_u64(t[5]);
 			size_t n; uint8_t *in = hp_hex(t[6], &n);
 			lzma_stream strm = LZMA_STREAM_INIT;
+			if (strcmp(kind, "xzmt") != 0 && !(reuse && !strcmp(l.tok[1], "xzmt")))
+				strm.allocator = &c03_allocator;
 			lzma_ret r;
 			if (reuse) {
 				r = init_kind(&strm, l.tok[1], (uint32_t)hp_u64(l.tok[2]), UINT64_C(100) << 20);
@@ -192,6 +195,7 @@ int main(void)
 			lzma_filter f[2] = { { .id = LZMA_FILTER_LZMA1EXT, .options = &o }, { .id = LZMA_VLI_UNKNOWN } };
 			size_t n; uint8_t *in = hp_hex(l.tok[7], &n);
 			lzma_stream strm = LZMA_STREAM_INIT;
+			strm.allocator = &c03_allocator;
 			lzma_ret r = lzma_raw_decoder(&strm, f);
 			if (r != LZMA_OK) { printf("init-%u 0 -\n", (unsigned)r); lzma_end(&strm); free(in); continue; }
 			buf out = {0}, ev = {0};
